@@ -51,7 +51,13 @@ type plan struct {
 
 var plans = map[string]plan{}
 
+// tmpDirs are removed when the driver dies with an error (deferred removals do not run then)
+var tmpDirs []string
+
 func die(code int, format string, args ...any) {
+	for _, d := range tmpDirs {
+		_ = os.RemoveAll(d)
+	}
 	fmt.Fprintf(os.Stderr, "check: "+format+"\n", args...)
 	os.Exit(code)
 }
@@ -119,6 +125,7 @@ func build() string {
 	if err != nil {
 		die(2, "mktemp: %v", err)
 	}
+	tmpDirs = append(tmpDirs, scratch)
 	defer os.RemoveAll(scratch)
 	start := time.Now()
 	cmd := exec.Command(filepath.Join(verifDir, "mkscratch.sh"), scratch)
@@ -244,7 +251,7 @@ func runWorker(bin string, env []string, outFile string, timeout time.Duration) 
 	cmd := exec.Command(bin, "-test.run", "^TestSim$", "-test.timeout", "0", "-test.count", "1")
 	cmd.Env = append(os.Environ(), env...)
 	if outFile != "" {
-		cmd.Env = append(cmd.Env, "VERIF_OUT="+outFile)
+		cmd.Env = append(cmd.Env, "VERIF_OUT="+outFile, "TMPDIR="+filepath.Dir(outFile)) // whatever a killed worker leaves behind goes with the work dir
 	}
 	var buf strings.Builder
 	cmd.Stdout = &buf
@@ -359,6 +366,7 @@ func runCheck(id, tier string, pl plan) int {
 	if err != nil {
 		die(2, "mktemp: %v", err)
 	}
+	tmpDirs = append(tmpDirs, work)
 	defer os.RemoveAll(work)
 
 	budget := 0
@@ -661,6 +669,7 @@ func tailStr(s string, n int) string {
 func selftest(args []string) int {
 	bin := build()
 	work, _ := os.MkdirTemp("/tmp", "verif-selftest-")
+	tmpDirs = append(tmpDirs, work)
 	defer os.RemoveAll(work)
 	type target struct{ world, profile, prop string }
 	var targets []target
@@ -774,6 +783,7 @@ func mutants(args []string) int {
 		name := strings.TrimSuffix(filepath.Base(f), ".patch")
 		id := name[:strings.IndexByte(name, '-')]
 		scratch, _ := os.MkdirTemp("/tmp", "verif-mutant-")
+		tmpDirs = append(tmpDirs, scratch)
 		cmd := exec.Command("bash", "-c", fmt.Sprintf("rsync -a --exclude .git %s/ %s/repo/ && cd %s/repo && patch -s -p1 < %s", repoDir, scratch, scratch, f))
 		if out, err := cmd.CombinedOutput(); err != nil {
 			fmt.Printf("mutant %s: cannot apply: %v %s\n", name, err, out)
